@@ -21,7 +21,7 @@ import sys
 import tempfile
 import threading
 
-from harness import common
+from harness import common, names
 from harness.common import hx
 
 EXTRACT = ['ExCrt']
@@ -160,11 +160,31 @@ class World:
         self.client.would_block = self.would_block
         self.ser = Ser()
         self.mgr = crt.CRTTransferManager(self.client, self.ser)
-        self.source_permits = self.mgr._semaphore._value
+        # private names by role / shape (harness/names.py): a rename in /repo is followed
+        self.sem_attr = names.find_attr(self.mgr, names.counting_semaphore_like, '_semaphore')
+        self.source_permits = getattr(self.mgr, self.sem_attr)._value
         self.count = self.source_permits if permits is None else permits
-        self.mgr._semaphore = LogSem(self.count)
-        self.mgr._s3_args_creator._os_utils = LogOS()
+        setattr(self.mgr, self.sem_attr, LogSem(self.count))
+        creator = getattr(self.mgr, names.find_attr(self.mgr, lambda v: isinstance(v, crt.S3ClientArgsCreator), '_s3_args_creator'))
+        setattr(creator, names.param_attr(crt.S3ClientArgsCreator, '__init__', 'os_utils', '_os_utils'), LogOS())
         self.req_idx = {}
+
+    # -- private parts of the CRT future / coordinator, by role
+    @property
+    def sem(self):
+        return getattr(self.mgr, self.sem_attr)
+
+    @staticmethod
+    def coord(future):
+        return getattr(future, names.find_attr(future, lambda v: type(v).__name__ == 'CRTTransferCoordinator', '_coordinator'))
+
+    @staticmethod
+    def coord_event(c):
+        return getattr(c, names.find_attr(c, names.event_like, '_done_event'))
+
+    @staticmethod
+    def req_attr(c):
+        return names.param_attr(type(c), 'set_s3_request', 's3_request', '_s3_request')
 
     # -- plumbing
     def emit(self, e):
@@ -210,7 +230,7 @@ class World:
         """fail: '0' | 'q' (first subscriber's on_queued raises) | 'a' (building the
         make_request arguments raises: serializer, or a missing upload source) |
         'm' (make_request raises).  All of them are inside the try block."""
-        if self.mgr._semaphore._value == 0:
+        if self.sem._value == 0:
             return 'block'
         fails = fail != '0'
         if fail == 'q' and nsubs == 0:
@@ -351,7 +371,7 @@ class World:
         never end here (done event not set, finished_future pending) raises
         HarnessWouldBlock (a BaseException) out of it: 'hang'."""
         self.client.sync_cancel = True
-        held = [(t, t.future._coordinator._s3_request) for t in self.registered()]
+        held = [(t, getattr(self.coord(t.future), self.req_attr(self.coord(t.future)))) for t in self.registered()]
         try:
             if via == 'exit':
                 if cancel:
@@ -370,9 +390,9 @@ class World:
         # a real thread would still sit inside coordinator.result(); undo what its
         # `finally` did when the simulated block unwound it
         for t, req in held:
-            c = t.future._coordinator
-            if res == 'hang' and c._s3_request is None and req is not None and not t.req.finished:
-                c._s3_request = req
+            c = self.coord(t.future)
+            if res == 'hang' and getattr(c, self.req_attr(c)) is None and req is not None and not t.req.finished:
+                setattr(c, self.req_attr(c), req)
         return res
 
     # -- observation
@@ -394,9 +414,9 @@ class World:
         from awscrt.exceptions import AwsCrtError
         if t.future is None:
             return 'U'
-        c = t.future._coordinator
+        c = self.coord(t.future)
         if not t.future.done():
-            if c._exception is None:
+            if getattr(c, names.param_attr(type(c), 'set_exception', 'exception', '_exception')) is None:
                 return 'P'
             try:
                 t.future.result()
@@ -419,7 +439,7 @@ class World:
     def after_flag(self, t):
         if t.future is None:
             return '-'
-        return '+' if t.future._coordinator._done_event.is_set() else '-'
+        return '+' if self.coord_event(self.coord(t.future)).is_set() else '-'
 
     def holding(self):
         return sum(1 for names in self.by_idx.values() if 'a' in names and 'r' not in names)
@@ -439,7 +459,7 @@ class World:
             evs.append(e[0] + i + ('.' + str(e[2]) if len(e) > 2 else ''))
         trs = ','.join(f'{hx(t.seen_id) if t.seen_id is not None else "?"}/{t.kind}{self.temp_state(t)}'
                        f'{self.future_state(t)}{self.after_flag(t)}' for t in self.trs)
-        seg = ';'.join([res, hx(self.mgr._semaphore._value), str(self.holding()), ','.join(evs), trs])
+        seg = ';'.join([res, hx(self.sem._value), str(self.holding()), ','.join(evs), trs])
         extra = self.extra_files()
         if extra:
             seg += ';EXTRA-FILES:' + ','.join(extra)
@@ -540,7 +560,7 @@ def oracle_step(w, op, res, log_from):
     """C20 stated on the implementation's own behaviour, after one op.
     Returns [(rule, description)]."""
     bad = []
-    val = w.mgr._semaphore._value
+    val = w.sem._value
     # conservation
     if val + w.holding() != w.count or not (0 <= val <= w.count):
         bad.append(('conservation', f'after {op_token(op)}: semaphore value {val} + transfers holding a permit '
@@ -589,7 +609,7 @@ def oracle_step(w, op, res, log_from):
                                          f'{"present" if ste else "gone"} and the destination {"present" if sde else "absent"}'))
     if op[0] == 'X' and res == 'returned':
         for t in w.registered():
-            if not t.future._coordinator._done_event.is_set() or \
+            if not w.coord_event(w.coord(t.future)).is_set() or \
                     w.by_idx.get(t.idx, []).count('d') != t.nsubs:
                 bad.append(('shutdown', f'shutdown({bool(op[1])}) returned before the done callbacks of transfer #{t.idx} ran'))
             if t.temp and os.path.exists(t.temp):
@@ -630,13 +650,13 @@ def thread_tests(ctx):
             w.cur = 2
             th.start()
             th.join(0.4)
-            blocked = th.is_alive() and not box and w.mgr._semaphore._value == 0 and \
+            blocked = th.is_alive() and not box and w.sem._value == 0 and \
                 len(w.client.calls) == 2
             w.complete(1, 'k')
             w.cur = 2
             th.join(10)
             proceeded = (not th.is_alive()) and 'future' in box and len(w.client.calls) == 3 and \
-                w.mgr._semaphore._value == 0
+                w.sem._value == 0
             if not blocked:
                 out.append(('blocks-not-fails', 'third-submit', f'with 2 permits held a third submit did not block (thread alive={th.is_alive()}, outcome={box})'))
             elif not proceeded:
@@ -715,7 +735,7 @@ def thread_tests(ctx):
             th.start()
             th.join(0.4)
             ctx.notes.append('observed: after a subscriber\'s on_done raised, permit released=%s, shutdown(cancel=True) %s'
-                             % (w.mgr._semaphore._value == 2, 'blocks' if th.is_alive() else 'returns'))
+                             % (w.sem._value == 2, 'blocks' if th.is_alive() else 'returns'))
             ctx.count('crt-thread', 1, nontrivial_key='raising-subscriber')
             w.close()
         finally:
